@@ -136,9 +136,15 @@ Verdict(t, e) ==
            ELSE <<"ok", "">>
     [] e.fn = "to_pv" ->
          \* a density matrix that must be |base>: graph_to_density, convert_representation(.. -> dm)
-         IF e.out.err # "" THEN <<"Raised", e.via>>
+         \* (has_st: the stabilizer tableau the conversion started from - |base> in another generating set; the cause
+         \*  names the input class when that tableau carries a minus sign: stabilizer_to_density reads unsigned strings)
+         IF e.has_st /\ TClause(e.st) # "ok" THEN <<"HarnessInputInvalid", e.via>>
+         ELSE IF e.has_st /\ TGroup(e.st) # GS(G1, n) THEN <<"HarnessInputNotBase", e.via>>
+         ELSE IF e.out.err # "" THEN <<"Raised", e.via>>
          ELSE IF e.out.bad # "" THEN <<"ObsInvalid", e.via>>
-         ELSE IF ~PVMatches(Pure(GS(G1, n)), n, e.out.vec) THEN <<"StatePreserved", e.via>>
+         ELSE IF ~PVMatches(Pure(GS(G1, n)), n, e.out.vec) THEN
+              <<"StatePreserved", IF e.has_st /\ \E k \in (e.st.n + 1)..(2 * e.st.n) : e.st.r[k] = 1
+                                  THEN "stabilizer-rows-with-minus-sign" ELSE e.via>>
          ELSE <<"ok", "">>
     [] e.fn = "to_stab" ->
          \* a stabilizer / Clifford tableau that must be |base>
